@@ -13,6 +13,12 @@ import (
 // handleCEA handles Capabilities-Exchange-Answer messages.
 func handleCEA(sm *StateMachine, errc chan error) diam.HandlerFunc {
 	return func(c diam.Conn, m *diam.Message) {
+		if _, ok := smpeer.FromContext(c.Context()); ok {
+			// The handshake is complete: errc is closed and nobody
+			// reads it anymore. Ignore further or duplicate CEAs,
+			// like handleCER ignores retransmitted CERs.
+			return
+		}
 		cea := new(smparser.CEA)
 		if err := cea.Parse(m, smparser.Client); err != nil {
 			errc <- err
